@@ -66,3 +66,12 @@ Theorem c13_range_normalised : forall a b, range_norm a b = VCon "RangeInclusive
 Proof. exact range_norm_members. Qed.
 Check c13_range_normalised : forall a b, range_norm a b = VCon "RangeInclusive" [VNum (N.min a b); VNum (N.max a b)].
 Print Assumptions c13_range_normalised.
+
+(* the functions and closures that Natives.v models by hand are, token for token, the ones the models were written for *)
+From TI Require NativeSources.
+Theorem c13_hand_models_match_source :
+  gen_native_fns = NativeSources.modelled_fn_sources /\ gen_native_actions = NativeSources.modelled_action_sources.
+Proof. exact NativeSources.hand_models_match_source_lemma. Qed.
+Check c13_hand_models_match_source :
+  gen_native_fns = NativeSources.modelled_fn_sources /\ gen_native_actions = NativeSources.modelled_action_sources.
+Print Assumptions c13_hand_models_match_source.
